@@ -304,3 +304,53 @@ func stringOf(v, src *pw.Val) bool {
 }
 
 type coreObl = core.Obligation
+
+// contentOf reports whether v holds the same bytes as src at the time it is used: v aliases src, or v is a fresh
+// buffer filled from src (make + copy, append to nil/empty, []byte(string(src))). evs are the events of the path so far.
+func contentOf(evs []*pw.Event, v, src *pw.Val) bool {
+	if v == nil {
+		return false
+	}
+	if aliases(v, src) {
+		return true
+	}
+	switch v.Kind {
+	case pw.KSlice:
+		return contentOf(evs, v.Src, src)
+	case pw.KConv:
+		return contentOf(evs, v.Src, src)
+	case pw.KAppend:
+		if len(v.Elems) == 1 && v.Op == token.ELLIPSIS && contentOf(evs, v.Elems[0], src) {
+			b := v.Src
+			if b == nil {
+				return false
+			}
+			if b.Kind == pw.KConst && b.IsNil || b.Kind == pw.KZero || b.Kind == pw.KAlloc && len(b.Elems) == 0 {
+				return true
+			}
+			if b.Kind == pw.KConv && b.Src != nil && b.Src.Kind == pw.KConst && b.Src.IsNil {
+				return true
+			}
+			if b.Kind == pw.KSlice && b.Src != nil { // buf[:0]
+				return true
+			}
+		}
+	case pw.KAlloc:
+		for _, ev := range evs {
+			if ev.Kind == pw.EvCall && ev.Role == "builtin.copy" && len(ev.Args) == 2 && ev.Args[0] == v && contentOf(evs, ev.Args[1], src) {
+				return true
+			}
+		}
+	}
+	return false
+}
+
+// isFreshCopyOf: like contentOf but v must not alias src (a private copy).
+func isFreshCopyOf(evs []*pw.Event, v, src *pw.Val) bool {
+	return !aliases(v, src) && contentOf(evs, v, src)
+}
+
+// stringOfContent: v is string(x) with x holding the bytes of src.
+func stringOfContent(evs []*pw.Event, v, src *pw.Val) bool {
+	return v != nil && v.Kind == pw.KConv && isCopyConv(v) && contentOf(evs, v.Src, src)
+}
